@@ -33,7 +33,9 @@ from txtorcon.attacher import PriorityAttacher
 PROPERTY = 'C09'
 
 STREAM_KINDS = ['host', 'exit', 'exit-inside', 'ip', 'resolve', 'internal', 'non-new']
-ANSWERS = ['built', 'launched', 'extended', 'failed', 'closed', 'unknown', 'noncircuit', 'none', 'dna', 'raise']
+ANSWERS = ['built', 'launched', 'extended', 'failed', 'closed', 'unknown', 'noncircuit', 'zero', 'false', 'emptystr', 'emptylist',
+           'none', 'dna', 'raise']
+FALSY = {'zero': 0, 'false': False, 'emptystr': '', 'emptylist': []}
 DELIVERY = ['now', 'deferred', 'coroutine']
 
 
@@ -132,6 +134,8 @@ def run_partA(kinds, answer, delivery):
                 return objs[answer]
             if answer == 'noncircuit':
                 return 'circuit-1'
+            if answer in FALSY:
+                return FALSY[answer]
             if answer == 'none':
                 return None
             if answer == 'dna':
@@ -192,7 +196,7 @@ def run_partA(kinds, answer, delivery):
                 pass
             elif asked != 1:
                 viol.append(('attacher-consulted-%d-times' % asked, kind, 'stream %d' % sid))
-        invalid = answer in ('launched', 'extended', 'failed', 'closed', 'unknown', 'noncircuit', 'raise')
+        invalid = answer in ('launched', 'extended', 'failed', 'closed', 'unknown', 'noncircuit', 'raise') or answer in FALSY
         n_attachable = sum(1 for sid_, k in zip(sids, kinds) if k not in ('exit', 'exit-upper', 'non-new') and sid_ in att.calls)
         if invalid and n_attachable and len(reported) < n_attachable:
             viol.append(('invalid-answer-not-reported', answer, 'attacher answered %s for %d streams, %d reports: %r'
@@ -371,12 +375,17 @@ def run_partB(order, variant):
             hosts = {1: 'same.example', 2: 'same.example'}
         else:
             hosts = {1: 'one.example', 2: 'two.example'}
+        if variant == 'late-setconf-ack':
+            # both connects start before Tor has answered the SETCONF that installs the circuit attacher
+            impl.sim.hold_prefixes = ['SETCONF']
         for k in (1, 2):
             eps[k] = LazySocksEndpoint(w, ports[k])
             facs[k] = AppFactory(log)
             tep = st.circuits[k].stream_via(w.reactor, hosts[k], 80, eps[k])
             recs[k] = DRec(tep.connect(facs[k]))
             impl.sim.pump()
+        impl.sim.hold_prefixes = []
+        impl.sim.pump()
         sid = {1: 11, 2: 12}
         attached_ack = {1: False, 2: False}
         for step in order:
@@ -395,7 +404,11 @@ def run_partB(order, variant):
                 if eps[k].wire.lost_seq is None:
                     eps[k].wire.deliver(socks5.reply(0, 1, bytes(4), 0))
             elif kind == 'U':
-                impl.sim.event('STREAM 19 NEW 0 unrelated.example:80 SOURCE_ADDR=127.0.0.1:50000 PURPOSE=USER')
+                if variant == 'same-port-other-host':
+                    # an unrelated client on another address that happens to use the same source port as connection 1
+                    impl.sim.event('STREAM 19 NEW 0 unrelated.example:80 SOURCE_ADDR=192.168.1.9:%d PURPOSE=USER' % ports[1])
+                else:
+                    impl.sim.event('STREAM 19 NEW 0 unrelated.example:80 SOURCE_ADDR=127.0.0.1:50000 PURPOSE=USER')
             elif kind == 'X':
                 impl.event('CIRC', M.circ_line(1, 'CLOSED', 3, 'REASON=DESTROYED'))
             elif kind == 'B':
@@ -468,7 +481,7 @@ def tasks(tier, seed):
             out.append(('A', ans, dl))
     out.append(('book',))
     out.append(('prio',))
-    for variant in ('plain', 'same-host', 'building', 'closing'):
+    for variant in ('plain', 'same-host', 'same-port-other-host', 'late-setconf-ack', 'building', 'closing'):
         n = len(orders_for(variant, tier))
         per = 400
         for i in range(0, n, per):
@@ -541,7 +554,7 @@ def meta(tier):
         rule='A: 7 stream kinds (1 and 2 streams) x 10 attacher answers x 3 delivery modes; set_attacher bookkeeping; every '
              'PriorityAttacher configuration of <= 3 sub-attachers over 3 priorities x 4 answers with every single removal. '
              'B: every merge of two connection chains (TCP established, method reply, STREAM NEW, SOCKS success) with an '
-             'unrelated STREAM NEW, in 4 variants (plain, same target host, circuit 2 still building, circuit 1 closing); '
+             'unrelated STREAM NEW, in 6 variants (plain, same target host, unrelated client with the same source port on another address, attacher-install SETCONF acknowledged only after both connects started, circuit 2 still building, circuit 1 closing); '
              'non-trivial: all',
         bounds=dict(connections=2, unrelated_streams=1, priority_subattachers=3),
         assumptions=['SimTor acknowledges every command at once, so a missing command is observable',
